@@ -7,6 +7,7 @@
     frames_restored frames_restored_binds choice_stack_restored choose_restores_choice_stack
     outer_variables_kept lookup_after_eq_before render_restores_context
     fuel_irrelevant_impl fuel_irrelevant_doc impl_eq_doc no_output_when_doc_fails no_output_when_impl_fails impl_fails_when_doc_fails
+    failing_renders_agree
     if_false_removes if_true_transparent for_eq_unrolled choose_first_match_only
     attr_form_eq_elem_form_partial replace_eq_content_strip_partial
     extract_flat_eq_tree construction_pipeline_eq_compile text_parse_eq_tree text_pipeline_eq_compile
@@ -15,6 +16,7 @@
 import Genshi.Lemmas.TmplSimMain
 import Genshi.Lemmas.TmplSimRev
 import Genshi.Lemmas.TmplSimErr
+import Genshi.Lemmas.TmplSimRevErr
 import Genshi.Lemmas.TmplEquiv
 import Genshi.Lemmas.TmplExtract
 import Genshi.Lemmas.TmplText
@@ -187,14 +189,13 @@ theorem impl_eq_doc (ns : List TNode) (data : Env) (o : List Event) (hwf : wfNod
     unfold docRender
     simp [hn, bind, Except.bind, pure, Except.pure]
 
-/-
-  Failing renders.  Full statement (kept visible): the documentation semantics fails (with an
-  error other than `fuel`) iff the implementation model fails.  Proved: when one side fails the
-  other produces no output, for any amount of fuel; and documentation fails ⟹ implementation
-  fails (`impl_fails_when_doc_fails`).  Not proved: implementation fails ⟹ the documentation
-  semantics *terminates* with an error rather than running out of every fuel (the error classes
-  are compared by the correspondence check on every run).
--/
+/-! Failing renders: when one side fails the other produces no output for any amount of fuel
+    (`no_output_when_*`), and it fails itself — it terminates with an error
+    (`failing_renders_agree`).  The error *class* is not part of the statement: it differs in one
+    corner (a `py:when`/`py:otherwise` with an empty body that may not render raises
+    RuntimeError from a StopIteration where the message would need a position); the classes
+    are compared by the correspondence check on every run. -/
+
 theorem no_output_when_doc_fails (ns : List TNode) (data : Env) (hwf : wfNodes ns = true) (n : Nat)
     (e : Err) (he : e ≠ .fuel) (h : docRender n ns data = .error e) (m : Nat) (o : List Event) :
     implRender m ns data ≠ .ok o := by
@@ -249,6 +250,27 @@ theorem impl_fails_when_doc_fails (ns : List TNode) (data : Env) (hwf : wfNodes 
   unfold implRender
   simp only [taskOf] at hm
   simp [hm, bind, Except.bind]
+
+/-- **Failing renders agree.**  The documentation semantics fails on a template and data iff the
+    implementation model fails on them (each terminating with an error other than "out of fuel").
+    Together with `impl_eq_doc`: on every well-formed template and all data both semantics have
+    the same outcome — the same output, or a failure, or neither terminates. -/
+theorem failing_renders_agree (ns : List TNode) (data : Env) (hwf : wfNodes ns = true) :
+    (∃ n e, docRender n ns data = .error e ∧ e ≠ .fuel) ↔
+    (∃ m e, implRender m ns data = .error e ∧ e ≠ .fuel) := by
+  constructor
+  · rintro ⟨n, e, h, he⟩; exact impl_fails_when_doc_fails ns data hwf n e he h
+  · rintro ⟨m, e, h, he⟩
+    unfold implRender at h
+    have h1 : run m (.flat (compileNodes ns)) (St.init data) = .error e := by
+      cases hd : run m (.flat (compileNodes ns)) (St.init data) with
+      | error e1 => simpa [hd, bind, Except.bind] using h
+      | ok r => simp [hd, bind, Except.bind, pure, Except.pure] at h
+    obtain ⟨n, e', hn, he'⟩ := sim_rev_err m (.nodes ns) [] ⟨data, [], none⟩ (St.init data) e h1 he hwf rfl
+      ⟨rfl, rfl, rfl, by intro i dm m h; simp at h⟩ trivial
+    refine ⟨n, e', ?_, he'⟩
+    unfold docRender
+    simp [hn, bind, Except.bind]
 
 /-! ### the documented equivalences, on the implementation model
 
